@@ -458,7 +458,21 @@ class VSnapEvent(VProbeEvent):
     """probe with a before-step hook on every market (used when a profile needs observation at every step)."""
 
 
-ALL_CLASSES = [VScriptedAgent, VScriptedHFT, VTracedHFTMaker, VProbeEvent, VSnapEvent] + TRACED
+class VQuotedMarket(Market):
+    """a user-defined market that PUBLISHES other numbers than the base class records: the single-time price getters return the
+    recorded value plus a premium.  (Whoever asks the market -- an index computing its average, an agent -- gets the published
+    number; the series getters and the book are the base class's.)"""
+
+    PREMIUM = 3.0
+
+    def get_market_price(self, time=None):
+        return super().get_market_price(time) + self.PREMIUM
+
+    def get_fundamental_price(self, time=None):
+        return super().get_fundamental_price(time) * 1.01
+
+
+ALL_CLASSES = [VScriptedAgent, VScriptedHFT, VTracedHFTMaker, VProbeEvent, VSnapEvent, VQuotedMarket] + TRACED
 
 
 # ---------------------------------------------------------------------------------------------------------------
